@@ -2343,6 +2343,17 @@ def cases(tier, seed):  # noqa: F811
 
 
 # =============================================================================================
+# E1-array/bilinear additions (helpers with symbolic lengths)
+# =============================================================================================
+from props.C17_bilinear import ASSUMED as _BIL_ASSUMED  # noqa: E402
+
+ASSUMPTIONS = list(ASSUMPTIONS) + list(_BIL_ASSUMED)
+LEVEL_TEXT = LEVEL_TEXT + (" Also proved for ALL lengths / shapes (E1-array/bilinear; 1..3 vectors): vectors_to_gram_matrix returns G[i,j] = <v_i, v_j> for 1-D and column inputs, "
+                           "to_density_matrix returns |v><v| for 1-D / column / row vectors and the matrix itself for square input; lemmas over the contracts of vec and tensor: "
+                           "vec(A X B) = (B^T (x) A) vec(X) and associativity of the Kronecker product, for all rectangular shapes.")
+EXPLANATION = LEVEL_TEXT
+
+# =============================================================================================
 # frame coverage shared by all properties (E2 obligations for every public function of the anchor files + run-time frame cases)
 # =============================================================================================
 from props import frame_all as _fa  # noqa: E402
